@@ -165,6 +165,9 @@ def run(ctx):
             ctx.cov['traces_validated_against_impl'] += len(res)
             bad = [i for i, r in enumerate(res) if not r]
             if bad: ctx.broken.append(f'{name} Newton-Schulz model and implementation disagree on {len(bad)} of {len(res)} trajectory(ies), first: {terms[bad[0]][:400]}')
+    _A, _, _ = spectral_problem(rng, 3, 2, [Fraction(2), Fraction(1)]); _A = qx.to_np(_A)
+    cm.layout_sweep(ctx, qx, 'C03', 'NewtonSchulzPseudoinverse', lambda X: solver.NewtonSchulzPseudoinverse(gamma=0.5, max_iter=4, tol=0.0).compute(X)[0], _A, {'shape': [3, 2]})
+    cm.layout_sweep(ctx, qx, 'C03', 'HigherOrderNewtonSchulzPseudoinverse', lambda X: solver.HigherOrderNewtonSchulzPseudoinverse(max_iter=3, tol=0.0).compute(X)[0], _A, {'shape': [3, 2]})
     ctx.cov['rule'] = ('matrices U diag(s) V^H with exactly unitary rational U, V and prescribed spectra (distinct, repeated, rank-deficient, zero' + ('' if ctx.quick() else ', wide dynamic range') + ') plus integer matrices, shapes '
                        + str(shapes) + f'; gamma in {[str(g) for g in gammas]}; every history entry (squared) and the final iterate compared with the exact Qc trajectory model and with the closed-form spectral recurrence; '
                        'monotonicity, truthfulness of the last history entry, stop rule and stop bound on the implementation. Non-trivial = at least two iterations.')
